@@ -366,6 +366,11 @@ async fn one_case(report: &Report, seed: u64, idx: u64, thorough: bool) {
     report.count(&format!("overlap_{class}"), 1);
     report.count(if no_retry { "mode_a_no_retries" } else { "mode_b_retries" }, 1);
     let mut findings = sc.findings.clone();
+    if findings.is_empty() {
+        let (f, n) = aftermath(&out, &sc).await;
+        report.count("aftermath_rows_compared", n);
+        findings.extend(f);
+    }
     let a = check_disjoint_ok(&out, &sc);
     if no_retry {
         let concurrent_ok_pairs = sc.commit_order.len().saturating_sub(1) as u64;
